@@ -115,7 +115,7 @@ def run(chk, repo, tier):
         from ..npmodel import nf_abs
         wantB = nf_abs(X) ** 2 * w if X is not None and len(X.terms) == 1 else None
         same = ri in (wantA, wantB)
-        if not same and by_order and X is not None and ri is not None:
+        if not same and X is not None and ri is not None and 'fresh<' in fmt(ri):
             same = _canon_fresh(fmt(ri)) in [_canon_fresh(fmt(w_)) for w_ in (wantA, wantB) if w_ is not None]
             good = ws[0].data.get('key') is not None and ws[0].data.get('aug') == 'add' and wc[0].data.get('aug') == 'add' and \
                 _canon_fresh(fmt(ws[0].data.get('key'))) == _canon_fresh(fmt(wc[0].data.get('key')))
